@@ -309,19 +309,42 @@ Direction(j_, env_) == LET c_ == XCmp(RefImages(j_, env_)[1], RefImages(j_, env_
 (***************************************************************************)
 (* C03 model: one state per (instance, parameter set, lattice point).      *)
 (***************************************************************************)
-VARIABLES phase, cinst, cpar, cpt, crule
-vars == <<phase, cinst, cpar, cpt, crule>>
+VARIABLES phase, cinst, cpar, cpt, crule,
+          cval,     \* C03 only: the exact values at the current lattice point (computed once per state)
+          cgrid     \* C04 only: the transformed grid of the current state (computed once per state)
+vars == <<phase, cinst, cpar, cpt, crule, cval, cgrid>>
 
-Init == phase = "idle" /\ cinst = 0 /\ cpar = 0 /\ cpt = 0 /\ crule = 0
+Init == phase = "idle" /\ cinst = 0 /\ cpar = 0 /\ cpt = 0 /\ crule = 0 /\ cval = <<>> /\ cgrid = <<>>
+
+\* Exp: the derivatives carry the factor ln(rmax/rmin), whose reciprocal is not an X-value;
+\* only the zeroth-order clauses are evaluated by TLC for that class.
+FirstOrder(j_) == InstSeq[j_].cls # "Exp"
+\* all exact values the invariants talk about, at lattice point q_ of parameter set p_ of instance j_
+ValuesAt(j_, p_, q_) ==
+    LET e_ == ParamLattice[j_][p_]
+        pts_ == PointLattice[j_][p_]
+        x_ == XQ(pts_[q_])
+        t_ == Trees[j_]
+        fx_ == AtX(t_.F, e_, x_)
+        nx_ == IF q_ < Len(pts_) THEN AtX(t_.F, e_, XQ(pts_[q_ + 1])) ELSE XOvf
+    IN IF FirstOrder(j_)
+       THEN [fx |-> fx_, nxt |-> nx_, gf |-> AtR(t_.G, e_, fx_),
+             d1 |-> AtX(t_.d1, e_, x_), d2 |-> AtX(t_.d2, e_, x_), d3 |-> AtX(t_.d3, e_, x_),
+             g1 |-> AtR(t_.g1, e_, fx_), g2 |-> AtR(t_.g2, e_, fx_), g3 |-> AtR(t_.g3, e_, fx_),
+             a1 |-> AtX(t_.a1, e_, x_), a2 |-> AtX(t_.a2, e_, x_), a3 |-> AtX(t_.a3, e_, x_),
+             b1 |-> AtR(t_.b1, e_, fx_), b2 |-> AtR(t_.b2, e_, fx_), b3 |-> AtR(t_.b3, e_, fx_)]
+       ELSE [fx |-> fx_, nxt |-> nx_, gf |-> AtR(t_.G, e_, fx_),
+             d1 |-> XOvf, d2 |-> XOvf, d3 |-> XOvf, g1 |-> XOvf, g2 |-> XOvf, g3 |-> XOvf,
+             a1 |-> XOvf, a2 |-> XOvf, a3 |-> XOvf, b1 |-> XOvf, b2 |-> XOvf, b3 |-> XOvf]
 
 PickBlock ==
     /\ phase = "idle"
     /\ \E j_ \in 1..NInst : \E p_ \in 1..Len(ParamLattice[j_]) : cinst' = j_ /\ cpar' = p_
-    /\ phase' = "block" /\ UNCHANGED <<cpt, crule>>
+    /\ phase' = "block" /\ UNCHANGED <<cpt, crule, cval, cgrid>>
 PickPoint ==
     /\ phase = "block"
-    /\ \E q_ \in 1..Len(PointLattice[cinst][cpar]) : cpt' = q_
-    /\ phase' = "check" /\ UNCHANGED <<cinst, cpar, crule>>
+    /\ \E q_ \in 1..Len(PointLattice[cinst][cpar]) : cpt' = q_ /\ cval' = ValuesAt(cinst, cpar, q_)
+    /\ phase' = "check" /\ UNCHANGED <<cinst, cpar, crule, cgrid>>
 Next == PickBlock \/ PickPoint
 Spec == Init /\ [][Next]_vars
 
@@ -331,41 +354,37 @@ CX == CPts[cpt]
 CT == Trees[cinst]
 CD == Decls[cinst]
 Checking == phase = "check"
-Fx == AtX(CT.F, CEnv, XQ(CX))
-D1x == AtX(CT.d1, CEnv, XQ(CX))
-D2x == AtX(CT.d2, CEnv, XQ(CX))
-D3x == AtX(CT.d3, CEnv, XQ(CX))
-
-\* Exp: the derivatives carry the factor ln(rmax/rmin), whose reciprocal is not an X-value;
-\* only the zeroth-order clauses are evaluated by TLC for that class.
-FirstOrderOK == InstSeq[cinst].cls # "Exp"
-G1x == AtR(CT.g1, CEnv, Fx)
-G2x == AtR(CT.g2, CEnv, Fx)
-G3x == AtR(CT.g3, CEnv, Fx)
+FirstOrderOK == FirstOrder(cinst)
+Fx == cval.fx
+D1x == cval.d1
+D2x == cval.d2
+D3x == cval.d3
+G1x == cval.g1
+G2x == cval.g2
+G3x == cval.g3
 
 \* Every identity below is "holds, or is undecided within 32 bits" (XEqU / XLtU, see ExprX);
 \* EmitValues reports which values were representable, the harness counts them and
 \* re-checks ALL of them on the same trees with unbounded integers.
 
 \* the inverse undoes the forward map
-RoundTrip == Checking => XEqU(AtR(CT.G, CEnv, Fx), XQ(CX))
+RoundTrip == Checking => XEqU(cval.gf, XQ(CX))
 \* D(G)(F(x)) * D(F)(x) = 1
-InverseDeriv1 == Checking /\ FirstOrderOK => XEqU(XMul(G1x, D1x), XI(1)) /\ XEqU(G1x, AtX(CT.a1, CEnv, XQ(CX)))
+InverseDeriv1 == Checking /\ FirstOrderOK => XEqU(XMul(G1x, D1x), XI(1)) /\ XEqU(G1x, cval.a1)
 \* D^2(G)(F(x)) = - D^2(F)(x) / D(F)(x)^3     (tree a2)
-InverseDeriv2 == Checking /\ FirstOrderOK => XEqU(G2x, AtX(CT.a2, CEnv, XQ(CX)))
+InverseDeriv2 == Checking /\ FirstOrderOK => XEqU(G2x, cval.a2)
 \* D^3(G)(F(x)) = (3 D^2(F)^2 - D(F) D^3(F)) / D(F)^5     (tree a3)
-InverseDeriv3 == Checking /\ FirstOrderOK => XEqU(G3x, AtX(CT.a3, CEnv, XQ(CX)))
+InverseDeriv3 == Checking /\ FirstOrderOK => XEqU(G3x, cval.a3)
 \* and the other way round: D^n(F)(x) from D^n(G) at r = F(x)   (trees b1, b2, b3)
 ForwardFromInverse == Checking /\ FirstOrderOK =>
-    /\ XEqU(D1x, AtR(CT.b1, CEnv, Fx)) /\ XEqU(D2x, AtR(CT.b2, CEnv, Fx)) /\ XEqU(D3x, AtR(CT.b3, CEnv, Fx))
+    /\ XEqU(D1x, cval.b1) /\ XEqU(D2x, cval.b2) /\ XEqU(D3x, cval.b3)
 \* the direction is decided for every parameter set of the lattice
 DirectionDecided == phase = "block" => Direction(cinst, CEnv) # 0
 \* sign of the first derivative = direction derived from the reference end points
 DerivSign == Checking /\ FirstOrderOK => IsOvf(D1x) \/ XSgn(D1x) = Direction(cinst, CEnv)
 \* strictly monotone between consecutive lattice points
 Monotone == Checking /\ cpt < Len(CPts) =>
-    LET nxt_ == AtX(CT.F, CEnv, XQ(CPts[cpt + 1])) IN
-    IF Direction(cinst, CEnv) = 1 THEN XLtU(Fx, nxt_) ELSE XLtU(nxt_, Fx)
+    IF Direction(cinst, CEnv) = 1 THEN XLtU(Fx, cval.nxt) ELSE XLtU(cval.nxt, Fx)
 \* lattice points are interior points of the domain of use; between the reference end points
 \* the images are interior points of the codomain
 Interior == Checking =>
@@ -421,7 +440,7 @@ NoInfiniteEnd == ~(phase = "block" /\ IsInf(RefImages(cinst, CEnv)[1]))
 (*   node of the rule (that is what "taken from the first grid" means).    *)
 (***************************************************************************)
 Rule(name_, n_) == [name |-> name_, n |-> n_]
-RuleNs == IF Thorough THEN <<2, 3, 4, 5, 6, 7, 8, 9, 10, 11, 12, 20, 40>> ELSE <<2, 5, 10>>
+RuleNs == IF Thorough THEN <<2, 3, 4, 5, 6, 8, 10, 12, 20, 40>> ELSE <<2, 5, 10>>
 OddNs  == IF Thorough THEN <<3, 5, 7, 9, 11, 21, 41>> ELSE <<3, 5, 9>>
 RuleSeq == [i_ \in 1..Len(RuleNs) |-> Rule("Trapezoidal", RuleNs[i_])]
            \o [i_ \in 1..Len(RuleNs) |-> Rule("MidPoint", RuleNs[i_])]
@@ -447,13 +466,17 @@ RuleDegree(ru_) == CASE ru_.name \in {"Trapezoidal", "MidPoint"} -> 1 [] ru_.nam
 MaxNode(ru_) == RuleNodes(ru_)[ru_.n]
 
 \* parameter sets of C04: those of C03 plus, for the b-scaled maps, sets WITHOUT b
+\* (in the thorough tier every third parameter set of the large C03 lattice: the grids multiply
+\* the work by the number of rules and nodes)
+Thin(s_) == IF Thorough THEN [i_ \in 1..((Len(s_) + 2) \div 3) |-> s_[3 * i_ - 2]] ELSE s_
 ParamLattice4 == Force([j_ \in 1..NInst |->
-    IF Decls[j_].binfer /\ InstSeq[j_].cls = "LinearInfinite" THEN ParamLattice[j_] \o MinMax(RminSeq, SizeSeq)
+    IF Decls[j_].binfer /\ InstSeq[j_].cls = "LinearInfinite" THEN Thin(ParamLattice[j_]) \o Thin(MinMax(RminSeq, SizeSeq))
     ELSE IF InstSeq[j_].cls = "Exp"
          THEN ParamLattice[j_] \o <<[rmin |-> Q(1, 4), rmax |-> Q(4, 1)], [rmin |-> Q(1, 9), rmax |-> Q(9, 1)]>>
     ELSE IF InstSeq[j_].cls = "Power"
          THEN ParamLattice[j_] \o <<[rmin |-> Q(1, 4), rmax |-> Q(4, 1)], [rmin |-> Q(1, 5), rmax |-> Q(125, 1)]>>
-    ELSE ParamLattice[j_]])
+    ELSE IF InstSeq[j_].cls \in {"Hyperbolic", "Identity"} THEN ParamLattice[j_]
+    ELSE Thin(ParamLattice[j_])])
 EffEnv(j_, env_, ru_) == IF Decls[j_].binfer /\ "b" \notin DOMAIN env_ THEN env_ @@ ("b" :> MaxNode(ru_)) ELSE env_
 
 \* precondition of Transform1D
@@ -486,29 +509,31 @@ Transform1D(j_, env_, ru_) ==
 PickBlock4 ==
     /\ phase = "idle"
     /\ \E j_ \in 1..NInst : \E p_ \in 1..Len(ParamLattice4[j_]) : cinst' = j_ /\ cpar' = p_
-    /\ phase' = "block" /\ UNCHANGED <<cpt, crule>>
+    /\ phase' = "block" /\ UNCHANGED <<cpt, crule, cval, cgrid>>
 PickRule ==
     /\ phase = "block"
     /\ \E q_ \in 1..Len(RuleSeq) :
           /\ Compatible(cinst, ParamLattice4[cinst][cpar], RuleSeq[q_])
           /\ crule' = q_
-    /\ phase' = "grid" /\ UNCHANGED <<cinst, cpar, cpt>>
+          /\ cgrid' = Transform1D(cinst, ParamLattice4[cinst][cpar], RuleSeq[q_])
+    /\ phase' = "grid" /\ UNCHANGED <<cinst, cpar, cpt, cval>>
 Next4 == PickBlock4 \/ PickRule
 Spec4 == Init /\ [][Next4]_vars
 
 Gridding == phase = "grid"
 CRule == RuleSeq[crule]
 CEnv4 == EffEnv(cinst, ParamLattice4[cinst][cpar], CRule)
-CGrid == Transform1D(cinst, ParamLattice4[cinst][cpar], CRule)
+CGrid == cgrid
 Idx == 1..CRule.n
 NotExp == InstSeq[cinst].cls # "Exp"       \* |D(F)| of Exp is a logarithm value: sign yes, reciprocal no
 
 \* the rules themselves: exact on the monomials up to their degree (base of the transport)
-QSumF(f_, n_) == LET RECURSIVE S_(_) S_(i_) == IF i_ > n_ THEN QZero ELSE QAdd(f_[i_], S_(i_ + 1)) IN S_(1)
+\* (checked arithmetic: a sum that leaves 32 bits is undecided, see ExprX)
+QSumF(f_, n_) == LET RECURSIVE S_(_) S_(i_) == IF i_ > n_ THEN QZero ELSE QAddS(f_[i_], S_(i_ + 1)) IN S_(1)
 BaseRuleExact == Gridding =>
     \A k_ \in 0..RuleDegree(CRule) :
-        QSumF([i_ \in Idx |-> QMul(RuleWeights(CRule)[i_], QPow(RuleNodes(CRule)[i_], k_))], CRule.n)
-            = (IF k_ % 2 = 0 THEN Q(2, k_ + 1) ELSE QZero)
+        LET s_ == QSumF([i_ \in Idx |-> QMulS(RuleWeights(CRule)[i_], QPowS(RuleNodes(CRule)[i_], k_))], CRule.n)
+        IN QBad(s_) \/ s_ = (IF k_ % 2 = 0 THEN Q(2, k_ + 1) ELSE QZero)
 \* non-negative weights stay non-negative (also for a decreasing map)
 WeightsNonNegative == Gridding => \A i_ \in Idx : IsOvf(CGrid.weights[i_]) \/ XSgn(CGrid.weights[i_]) >= 0
 \* the new domain is ordered and contains every new node
